@@ -153,14 +153,19 @@ def gen_scalar_funcs(tree):
             if isinstance(f, (ast.Expr, ast.Pass)):
                 continue
             fail(f, "class member")
-        args = [a.arg for a in f.args.args]
-        if len(args) != 3 or f.args.defaults or f.args.kwonlyargs or f.args.vararg or f.args.kwarg:
-            fail(f, "reducer signature (3 positional arguments expected)")
-        if [ast.unparse(d) for d in f.decorator_list] != ["_scalar_func_decorator"]:
-            fail(f, "reducer decorator")
-        tr = Tr({args[0]: "V", args[1]: "V", args[2]: "Z"})
-        body = tr.stmts(f.body, ("V", "Z"))
-        out.append(f"Definition g_{f.name} ({args[0]} {args[1]} : V) ({args[2]} : Z) : V * Z :=\n  {body}.\n")
+        try:
+            args = [a.arg for a in f.args.args]
+            if len(args) != 3 or f.args.defaults or f.args.kwonlyargs or f.args.vararg or f.args.kwarg:
+                fail(f, "reducer signature (3 positional arguments expected)")
+            if [ast.unparse(d) for d in f.decorator_list] != ["_scalar_func_decorator"]:
+                fail(f, "reducer decorator")
+            tr = Tr({args[0]: "V", args[1]: "V", args[2]: "Z"})
+            body = tr.stmts(f.body, ("V", "Z"))
+            out.append(f"Definition g_{f.name} ({args[0]} {args[1]} : V) ({args[2]} : Z) : V * Z :=\n  {body}.\n")
+        except Unsupported as e:
+            # poison this reducer only: its tie in Proofs/GenTie.v fails
+            print(f"py2coq: ScalarFuncs.{f.name}: {e}", file=sys.stderr)
+            out.append(f"(* NOT TRANSLATED: {str(e).replace('*)', '* )')} *)\nDefinition g_{f.name} (x_ y_ : V) (c_ : Z) : V * Z := (null o, (-7)%Z).\n")
         names.append(f.name)
     return out, names
 
@@ -176,7 +181,10 @@ def gen_reduction_ops(tree):
             fail(f, "class member")
         args = [a.arg for a in f.args.args]
         if len(args) != 2:
-            fail(f, "binary op signature")
+            print(f"py2coq: NumbaReductionOps.{f.name}: not a binary op", file=sys.stderr)
+            out.append(f"Definition b_{f.name} (x_ y_ : V) : V := null o.\n")
+            names.append(f.name)
+            continue
         if f.name == "count":
             # x + 1 on a count accumulator
             tr = Tr({args[0]: "Z", args[1]: "V"})
@@ -185,9 +193,13 @@ def gen_reduction_ops(tree):
                 fail(f, "count op")
             out.append(f"Definition b_{f.name} ({args[0]} : Z) ({args[1]} : V) : Z :=\n  {tr.expr(s.value)}.\n")
         else:
-            tr = Tr({args[0]: "V", args[1]: "V"})
-            body = tr.stmts(f.body, ("V",))
-            out.append(f"Definition b_{f.name} ({args[0]} {args[1]} : V) : V :=\n  {body}.\n")
+            try:
+                tr = Tr({args[0]: "V", args[1]: "V"})
+                body = tr.stmts(f.body, ("V",))
+                out.append(f"Definition b_{f.name} ({args[0]} {args[1]} : V) : V :=\n  {body}.\n")
+            except Unsupported as e:
+                print(f"py2coq: NumbaReductionOps.{f.name}: {e}", file=sys.stderr)
+                out.append(f"(* NOT TRANSLATED: {str(e).replace('*)', '* )')} *)\nDefinition b_{f.name} (x_ y_ : V) : V := null o.\n")
         names.append(f.name)
     return out, names
 
@@ -723,7 +735,15 @@ def main():
         ro += "\nDefinition gen_reduction_op_names : list String.string :=\n  [" + "; ".join(f'"{n}"%string' for n in names2) + "]%list.\n"
         ro = ro.replace("From Coq Require Import List ZArith Bool.", "From Coq Require Import List ZArith Bool String.\nImport ListNotations.")
         tb = "(* GENERATED by translator/py2coq.py — do not edit. *)\n" + gen_tables(trees)
-        wc = gen_weight_code_sum(trees["factorization"])
+        try:
+            wc = gen_weight_code_sum(trees["factorization"])
+        except Unsupported as e:
+            # poison: Proofs/TieFactorize.v fails, and with it C02 only
+            print(f"py2coq: _weight_code_sum: {e}", file=sys.stderr)
+            wc = ("(* GENERATED by translator/py2coq.py - _weight_code_sum was NOT TRANSLATED: " + str(e).replace("*)", "* )") + " *)\n"
+                  "From Coq Require Import List ZArith Bool.\nImport ListNotations.\nOpen Scope Z_scope.\n"
+                  "Definition g_wcs_loop (cw : list (Z * Z)) (out : Z) : option Z := None.\n"
+                  "Definition g_weight_code_sum (codes weights : list Z) : Z := (-7).\n")
         import pins
         try:
             src = "(* GENERATED by translator/pins.py - do not edit. *)\n" + pins.generate(trees, "gen_src_")
